@@ -112,7 +112,8 @@ def run(tier, seed):
             rep.violation(re.sub(r'\W+', '_', disp), payload, no_input=True)
         else:
             rep.undecide('%s: %s (%s) canary=%s' % (disp, r.status, r.detail, r.canary))
-    cov = {'obligations': n_dis + len(rep.violations) + len(rep.undecided) + len(rep.known_hits), 'discharged': n_dis,
+    cov = {'obligations': n_dis + len(rep.violations) + len(rep.undecided), 'discharged': n_dis,   # obligations that fail as recorded known findings are counted under known_finding_obligations only
+          
            'checker_cmd': results[0][1].cmd if results else 'n/a', 'trusted_base': TRUSTED, 'per_obligation': per_fn,
            'pairs': ['%s -> %s' % (p[0], p[2]) for p in PAIRS], 'bounded': [], 'samples': samples or [{'note': 'nothing discharged'}],
            'explanation': 'relational assertion over two mechanically extracted classes: shared members equal, the specialising members at their reduction value '
